@@ -6,7 +6,13 @@ R19.1 effect whitelist: the fields an evaluation method writes (transitively
       configuration mutator on their sub-models except the sensitivity
       switch.
 R19.2 no write-through on arguments: a public method does not modify an
-      array / list / frame that still aliases one of its arguments.
+      array / list / frame that still aliases one of its arguments (private
+      helpers of the class are followed).
+R19.4 results are fresh: no evaluation method (nor a private helper it calls)
+      returns an array / list that is, or is a view of, a field of the
+      object.  A result that lives in a re-used buffer is overwritten by the
+      next evaluation and by whoever adds to it in place (the hierarchical
+      posterior adds the prior gradient into the gradient it was handed).
 """
 import ast
 
@@ -106,15 +112,141 @@ def _aliases(expr, alias):
         if isinstance(expr.func, ast.Attribute) and \
                 expr.func.attr in ALIAS_METHODS:
             return _aliases(expr.func.value, alias)
+        if isinstance(expr.func, ast.Attribute) and expr.func.attr in (
+                'astype', 'to_numpy') and any(
+                    k.arg == 'copy' and not (isinstance(
+                        k.value, ast.Constant) and k.value.value is True)
+                    for k in expr.keywords):
+            # astype(.., copy=False) returns the array itself when the type
+            # already matches
+            return _aliases(expr.func.value, alias)
+        if f in ('np.array',) and expr.args and any(
+                k.arg == 'copy' and isinstance(k.value, ast.Constant)
+                and k.value.value is False for k in expr.keywords):
+            return _aliases(expr.args[0], alias)
         return None
     if isinstance(expr, ast.IfExp):
         return _aliases(expr.body, alias) or _aliases(expr.orelse, alias)
     return None
 
 
+def _writes_through(repo, cls, fn, params, depth=0, memo=None):
+    """Statements of fn that modify an object which still aliases one of
+    `params` (names of fn's parameters).  Calls to private helpers of the
+    same class are followed (depth bound 3): handing an aliased argument to a
+    helper that writes through the corresponding parameter is a write.
+    -> list of (stmt, param, kind)"""
+    alias = {p: p for p in params}      # local name -> parameter
+    findings = []
+
+    def helper_writes(call):
+        f = call.func
+        if not (isinstance(f, ast.Attribute) and isinstance(
+                f.value, ast.Name) and f.value.id == 'self' and cls
+                and f.attr.startswith('_') and not f.attr.startswith('__')
+                and depth < 3):
+            return
+        hit = [(i, _aliases(a, alias)) for i, a in enumerate(call.args)]
+        hit = [(i, a) for i, a in hit if a]
+        if not hit:
+            return
+        defs = set()
+        for k in [cls] + repo.subclasses(cls, strict=True):
+            d, hfn = repo.resolve(k, f.attr)
+            if hfn is not None:
+                defs.add((d, hfn))
+        for d, hfn in sorted(defs, key=lambda x: x[0]):
+            hp = [a.arg for a in hfn.args.args]
+            if hp and hp[0] in ('self', 'cls'):
+                hp = hp[1:]
+            for i, a in hit:
+                if i >= len(hp):
+                    continue
+                key = (d, hfn.name, hp[i])
+                if memo is not None and key in memo:
+                    sub = memo[key]
+                else:
+                    sub = _writes_through(repo, d, hfn, [hp[i]], depth + 1,
+                                          memo)
+                    if memo is not None:
+                        memo[key] = sub
+                for s2, p2, kind in sub:
+                    yield alias[a], '%s in %s.%s' % (kind, d, hfn.name)
+
+    def visit(stmts):
+        for s in stmts:
+            if isinstance(s, (ast.If, ast.For, ast.While, ast.With,
+                              ast.Try)):
+                if isinstance(s, ast.For):
+                    for x in ast.walk(s.target):
+                        if isinstance(x, ast.Name):
+                            alias.pop(x.id, None)
+                for c in ast.walk(getattr(s, 'test', None) or getattr(
+                        s, 'iter', None) or ast.Pass()):
+                    if isinstance(c, ast.Call):
+                        for p, kind in helper_writes(c):
+                            findings.append((s, p, kind))
+                visit(getattr(s, 'body', []))
+                visit(getattr(s, 'orelse', []))
+                for h in getattr(s, 'handlers', []):
+                    visit(h.body)
+                visit(getattr(s, 'finalbody', []))
+                continue
+            # calls see the aliases as they are before the statement rebinds
+            for c in ast.walk(s):
+                if isinstance(c, ast.Call):
+                    for p, kind in helper_writes(c):
+                        findings.append((s, p, kind))
+                if isinstance(c, ast.Call) and isinstance(
+                        c.func, ast.Attribute):
+                    a = _aliases(c.func.value, alias)
+                    if a and (c.func.attr in MUTATING or any(
+                            k.arg == 'inplace' and isinstance(
+                                k.value, ast.Constant)
+                            and k.value.value is True
+                            for k in c.keywords)):
+                        findings.append((s, alias[a], 'mutating call .%s'
+                                         % c.func.attr))
+            # writes
+            if isinstance(s, ast.Assign):
+                for t in s.targets:
+                    if isinstance(t, ast.Subscript):
+                        a = _aliases(t.value, alias)
+                        if a:
+                            findings.append((s, alias[a], 'element store'))
+                # rebinding
+                if len(s.targets) == 1 and isinstance(
+                        s.targets[0], ast.Name):
+                    t = s.targets[0].id
+                    a = _aliases(s.value, alias)
+                    if a:
+                        alias[t] = alias[a]
+                    else:
+                        alias.pop(t, None)
+                elif len(s.targets) == 1 and isinstance(
+                        s.targets[0], ast.Tuple):
+                    for x in s.targets[0].elts:
+                        if isinstance(x, ast.Name):
+                            alias.pop(x.id, None)
+            elif isinstance(s, ast.AugAssign):
+                if isinstance(s.target, ast.Name):
+                    a = s.target.id if s.target.id in alias else None
+                    if a:
+                        findings.append((s, alias[a], 'in-place %s=' % {
+                            ast.Add: '+', ast.Sub: '-', ast.Mult: '*',
+                            ast.Div: '/'}.get(type(s.op), 'op')))
+                elif isinstance(s.target, ast.Subscript):
+                    a = _aliases(s.target.value, alias)
+                    if a:
+                        findings.append((s, alias[a], 'element update'))
+    visit(fn.body)
+    return findings
+
+
 def r19_2(ctx, repo):
     rule = 'R19.2'
     n = 0
+    memo = {}
     for rel, cls, fn in repo.all_functions():
         if rel.startswith(('chi/plots', 'chi/library')):
             continue
@@ -127,69 +259,7 @@ def r19_2(ctx, repo):
             continue
         n += 1
         construct = '%s.%s' % (cls, fn.name) if cls else fn.name
-        alias = {p: p for p in params}      # local name -> parameter
-        findings = []
-
-        def visit(stmts):
-            for s in stmts:
-                if isinstance(s, (ast.If, ast.For, ast.While, ast.With,
-                                  ast.Try)):
-                    if isinstance(s, ast.For):
-                        # iterating an aliased container yields its elements
-                        src = _aliases(s.iter, alias)
-                        for x in ast.walk(s.target):
-                            if isinstance(x, ast.Name):
-                                alias.pop(x.id, None)
-                    visit(getattr(s, 'body', []))
-                    visit(getattr(s, 'orelse', []))
-                    for h in getattr(s, 'handlers', []):
-                        visit(h.body)
-                    visit(getattr(s, 'finalbody', []))
-                    continue
-                # writes
-                if isinstance(s, ast.Assign):
-                    for t in s.targets:
-                        if isinstance(t, ast.Subscript):
-                            a = _aliases(t.value, alias)
-                            if a:
-                                findings.append((s, alias[a], 'element store'))
-                    # rebinding
-                    if len(s.targets) == 1 and isinstance(
-                            s.targets[0], ast.Name):
-                        t = s.targets[0].id
-                        a = _aliases(s.value, alias)
-                        if a:
-                            alias[t] = alias[a]
-                        else:
-                            alias.pop(t, None)
-                    elif len(s.targets) == 1 and isinstance(
-                            s.targets[0], ast.Tuple):
-                        for x in s.targets[0].elts:
-                            if isinstance(x, ast.Name):
-                                alias.pop(x.id, None)
-                elif isinstance(s, ast.AugAssign):
-                    if isinstance(s.target, ast.Name):
-                        a = s.target.id if s.target.id in alias else None
-                        if a:
-                            findings.append((s, alias[a], 'in-place %s=' % {
-                                ast.Add: '+', ast.Sub: '-', ast.Mult: '*',
-                                ast.Div: '/'}.get(type(s.op), 'op')))
-                    elif isinstance(s.target, ast.Subscript):
-                        a = _aliases(s.target.value, alias)
-                        if a:
-                            findings.append((s, alias[a], 'element update'))
-                for c in ast.walk(s):
-                    if isinstance(c, ast.Call) and isinstance(
-                            c.func, ast.Attribute):
-                        a = _aliases(c.func.value, alias)
-                        if a and (c.func.attr in MUTATING or any(
-                                k.arg == 'inplace' and isinstance(
-                                    k.value, ast.Constant)
-                                and k.value.value is True
-                                for k in c.keywords)):
-                            findings.append((s, alias[a], 'mutating call .%s'
-                                             % c.func.attr))
-        visit(fn.body)
+        findings = _writes_through(repo, cls, fn, params, 0, memo)
         where = repo.loc(fn, cls, fn.name)
         if findings:
             seen = set()
@@ -208,6 +278,139 @@ def r19_2(ctx, repo):
                    'no store through an alias of %s' % ', '.join(params[:4]))
     if n < 150:
         ctx.error(rule, 'only %d public functions analysed (floor 150)' % n)
+
+
+def _field_alias(e, alias):
+    """self field that expression e is (a view of), or None."""
+    if isinstance(e, ast.Attribute) and isinstance(e.value, ast.Name) \
+            and e.value.id == 'self':
+        return 'self.' + e.attr
+    if isinstance(e, ast.Name):
+        return alias.get(e.id)
+    if isinstance(e, ast.Attribute) and e.attr in ('T', 'values'):
+        return _field_alias(e.value, alias)
+    if isinstance(e, ast.Subscript):
+        sl = e.slice
+        elts = sl.elts if isinstance(sl, ast.Tuple) else [sl]
+        if all(isinstance(x, ast.Slice) or U(x) in ('np.newaxis', 'None',
+                                                    '...') for x in elts):
+            return _field_alias(e.value, alias)
+        return None
+    if isinstance(e, ast.Call):
+        f = U(e.func)
+        if f in ALIAS_FUNCS and e.args:
+            return _field_alias(e.args[0], alias)
+        if isinstance(e.func, ast.Attribute) and e.func.attr in \
+                ALIAS_METHODS:
+            return _field_alias(e.func.value, alias)
+    if isinstance(e, ast.IfExp):
+        return _field_alias(e.body, alias) or _field_alias(e.orelse, alias)
+    return None
+
+
+def _mutable_fields(repo, cls):
+    """Fields of cls (over its MRO and subclasses) that hold an array / list /
+    dict: assigned from a numpy constructor or a display, or stored into by
+    element."""
+    out = set()
+    ks = set(repo.mro(cls)) | set(repo.subclasses(cls, strict=True))
+    for k in ks:
+        if not repo.has_cls(k):
+            continue
+        for fn in repo.cls(k).methods.values():
+            for n in ast.walk(fn):
+                if isinstance(n, ast.Assign):
+                    for t in n.targets:
+                        if isinstance(t, ast.Subscript):
+                            f = _self_field(t)
+                            if f:
+                                out.add(f)
+                        if isinstance(t, ast.Attribute) and isinstance(
+                                t.value, ast.Name) and t.value.id == 'self':
+                            v = n.value
+                            if isinstance(v, (ast.List, ast.Dict,
+                                              ast.ListComp, ast.DictComp)):
+                                out.add('self.' + t.attr)
+                            if isinstance(v, ast.Call) and U(v.func).split(
+                                    '.')[0] in ('np', 'numpy', 'pd'):
+                                out.add('self.' + t.attr)
+                if isinstance(n, ast.AugAssign) and isinstance(
+                        n.target, ast.Subscript):
+                    f = _self_field(n.target)
+                    if f:
+                        out.add(f)
+    return out
+
+
+def r19_4(ctx, repo):
+    rule = 'R19.4'
+    n = 0
+    for cname, c in sorted(repo.classes.items()):
+        if c.relpath.startswith(SKIP):
+            continue
+        todo = []
+        for m in EVAL_NAMES:
+            k, fn = repo.resolve(cname, m)
+            if fn is None or repo.is_abstract(fn) or k != cname:
+                continue
+            todo.append((m, fn, 0))
+        seen = set()
+        mutable = None
+        while todo:
+            m, fn, depth = todo.pop()
+            if m in seen:
+                continue
+            seen.add(m)
+            n += 1
+            if mutable is None:
+                mutable = _mutable_fields(repo, cname)
+            alias = {}
+            stored = set()
+            for s in ast.walk(fn):
+                if isinstance(s, ast.Assign) and len(s.targets) == 1 \
+                        and isinstance(s.targets[0], ast.Name):
+                    a = _field_alias(s.value, alias)
+                    if a:
+                        alias[s.targets[0].id] = a
+                if isinstance(s, (ast.Assign, ast.AugAssign)):
+                    tg = s.targets if isinstance(s, ast.Assign) \
+                        else [s.target]
+                    for t in tg:
+                        if isinstance(t, ast.Subscript) and isinstance(
+                                t.value, ast.Name):
+                            stored.add(t.value.id)
+                if isinstance(s, ast.Call) and isinstance(
+                        s.func, ast.Attribute) and isinstance(
+                        s.func.value, ast.Name) and s.func.value.id == \
+                        'self' and s.func.attr.startswith('_') \
+                        and not s.func.attr.startswith('__') and depth < 3:
+                    k2, h = repo.resolve(cname, s.func.attr)
+                    if h is not None and not repo.is_abstract(h):
+                        todo.append((s.func.attr, h, depth + 1))
+            construct = '%s.%s' % (cname, m)
+            bad = False
+            for s in ast.walk(fn):
+                if not (isinstance(s, ast.Return) and s.value is not None):
+                    continue
+                vals = s.value.elts if isinstance(s.value, ast.Tuple) \
+                    else [s.value]
+                for v in vals:
+                    a = _field_alias(v, alias)
+                    if a and (a in mutable or (isinstance(v, ast.Name)
+                                               and v.id in stored)):
+                        bad = True
+                        ctx.violation(
+                            rule, repo.loc(s, cname, m), construct,
+                            'returns buffer %s' % a,
+                            '`%s` hands out %s itself (no copy): the result '
+                            'of one evaluation is overwritten by the next '
+                            'one and by callers that update it in place'
+                            % (norm_stmt(s)[:50], a))
+            if not bad:
+                ctx.ok(rule, repo.loc(fn, cname, m), construct,
+                       'every returned array is created by the call')
+    if n < 60:
+        ctx.error(rule, 'only %d evaluation methods analysed (floor 60)' % n)
 
 
 FIXTURE = '''
